@@ -929,7 +929,8 @@ def comprehension_form(trees):
             nxt = stmts[i + 1] if i + 1 < len(stmts) else None
             if (isinstance(s, ast.Assign) and len(s.targets) == 1 and isinstance(s.targets[0], ast.Name)
                     and isinstance(nxt, ast.For) and not nxt.orelse
-                    and ((isinstance(s.value, ast.List) and not s.value.elts) or (isinstance(s.value, ast.Dict) and not s.value.keys))):
+                    and ((isinstance(s.value, ast.List) and not s.value.elts) or (isinstance(s.value, ast.Dict) and not s.value.keys)
+                         or (isinstance(s.value, ast.Constant) and s.value.value == 0 and not isinstance(s.value.value, bool)))):
                 x = s.targets[0].id
                 pc = pieces(nxt.body)
                 tnames = names_in(nxt.target)
@@ -945,6 +946,16 @@ def comprehension_form(trees):
                             and len(fin.value.args) == 1 and not fin.value.keywords and x not in names_in(fin.value.args[0]):
                         comp = ast.ListComp(elt=fin.value.args[0], generators=[
                             ast.comprehension(target=nxt.target, iter=nxt.iter, ifs=conds, is_async=0)])
+                    elif isinstance(s.value, ast.Constant) and isinstance(fin, ast.AugAssign) and isinstance(fin.op, ast.Add) \
+                            and isinstance(fin.target, ast.Name) and fin.target.id == x and isinstance(fin.value, ast.Constant) \
+                            and fin.value.value == 1:
+                        # a counting loop: x = 0 ... x += 1  is  len([... for T in IT if ...])
+                        elt = copy.deepcopy(nxt.target)
+                        for y in ast.walk(elt):
+                            if isinstance(y, ast.Name):
+                                y.ctx = ast.Load()
+                        comp = ast.Call(func=ast.Name(id="len", ctx=ast.Load()), args=[ast.ListComp(elt=elt, generators=[
+                            ast.comprehension(target=nxt.target, iter=nxt.iter, ifs=conds, is_async=0)])], keywords=[])
                     elif isinstance(s.value, ast.Dict) and isinstance(fin, ast.Assign) and len(fin.targets) == 1 \
                             and isinstance(fin.targets[0], ast.Subscript) and isinstance(fin.targets[0].value, ast.Name) \
                             and fin.targets[0].value.id == x and x not in names_in(fin.targets[0].slice) | names_in(fin.value):
@@ -952,8 +963,7 @@ def comprehension_form(trees):
                             ast.comprehension(target=nxt.target, iter=nxt.iter, ifs=conds, is_async=0)])
                 if ok and comp is not None:
                     # the loop variable must be dead after the loop
-                    later = [y for st in stmts[i + 2:] for y in ast.walk(st) if isinstance(y, ast.Name) and y.id in tnames]
-                    if not later and _enclosing_uses_ok(fn, nxt, tnames):
+                    if _enclosing_uses_ok(fn, nxt, tnames):
                         new = ast.copy_location(ast.Assign(targets=[ast.Name(id=x, ctx=ast.Store())], value=comp), nxt)
                         ast.fix_missing_locations(new)
                         out.append(new)
@@ -987,10 +997,22 @@ def _negate(test):
 
 
 def _enclosing_uses_ok(fn, loop, tnames):
-    """the loop's target names are bound nowhere else in the function and read only inside the loop"""
+    """outside the loop the target names are only used under another binding of their own (a later `for` over
+    the same name, a comprehension): the value the loop leaves in them is never read"""
     inside = {id(y) for y in ast.walk(loop)}
+    covered = set()
+    for n in _own(fn):
+        binds = set()
+        if isinstance(n, (ast.For, ast.AsyncFor)) and n is not loop:
+            binds = {y.id for y in ast.walk(n.target) if isinstance(y, ast.Name)}
+        elif isinstance(n, (ast.ListComp, ast.SetComp, ast.DictComp, ast.GeneratorExp)):
+            binds = {y.id for g in n.generators for y in ast.walk(g.target) if isinstance(y, ast.Name)}
+        if binds & tnames:
+            for y in ast.walk(n):
+                if isinstance(y, ast.Name) and y.id in binds:
+                    covered.add(id(y))
     for y in _own(fn, ast.Name):
-        if y.id in tnames and id(y) not in inside:
+        if y.id in tnames and id(y) not in inside and id(y) not in covered:
             return False
     return True
 
